@@ -110,7 +110,7 @@ struct TWriter {
     void byte(uint8_t b) { out.push_back((char)b); }
     void varint(uint64_t v) { while (v >= 0x80) { byte((uint8_t)(v | 0x80)); v >>= 7; } byte((uint8_t)v); }
     void zz(int64_t v) { varint(((uint64_t)v << 1) ^ (uint64_t)(v >> 63)); }
-    static uint8_t wire_type(const TV& v) { return v.t == TT_RAW ? v.raw_type : v.t == TT_TRUE ? (v.b ? TT_TRUE : TT_FALSE) : v.t; }
+    static uint8_t wire_type(const TV& v) { if (v.t == TT_RAW) return v.raw_type; if (v.t == TT_TRUE) return v.b ? (uint8_t)TT_TRUE : (uint8_t)TT_FALSE; return v.t; }
     void value(const TV& v, bool as_element) {
         switch (v.t) {
             case TT_TRUE: case TT_FALSE: if (as_element) byte(v.b ? 1 : 2); break;   // in a field the value is in the header
@@ -120,7 +120,7 @@ struct TWriter {
             case TT_DOUBLE: { char b[8]; memcpy(b, &v.d, 8); out.append(b, 8); break; }
             case TT_BINARY: varint(v.s.size()); out += v.s; break;
             case TT_LIST: case TT_SET: {
-                uint8_t et = v.et == TT_FALSE ? TT_TRUE : v.et;
+                uint8_t et = v.et == TT_FALSE ? (uint8_t)TT_TRUE : v.et;
                 if (v.l.size() < 15) byte((uint8_t)((v.l.size() << 4) | et)); else { byte((uint8_t)(0xF0 | et)); varint(v.l.size()); }
                 for (auto& e : v.l) value(e, true);
                 break;
